@@ -24,35 +24,29 @@ Lemma gen_matches_pname_ok : gen_matches_pname = true.
 Proof. vm_compute. reflexivity. Qed.
 
 (* ------------------------------------------------------- bridging: pointer *)
-Definition ptr_sweep (mask shift : N) : bool :=
-  forallb (fun b => forallb (fun c =>
-     ptr_bits mask shift (N.of_nat b) (N.of_nat c) =? N.of_nat c + 256 * (N.of_nat b mod 64))
-     (seq 0 256)) (seq 0 256).
+Definition ptr_ok (mask shift : N) (b c : nat) : bool :=
+  ptr_bits mask shift (N.of_nat b) (N.of_nat c) =? N.of_nat c + 256 * (N.of_nat b mod 64).
 
-Lemma ptr_sweep_ok : ptr_sweep 63 8 = true.
-Proof. vm_compute. reflexivity. Qed.
-
-Lemma forallb_seq_below (f : nat -> bool) (n i : nat) :
-  forallb f (seq 0 n) = true -> (i < n)%nat -> f i = true.
+Lemma forallb2_seq (f : nat -> nat -> bool) (n k : nat) :
+  forallb (fun b => forallb (f b) (seq 0 k)) (seq 0 n) = true ->
+  forall b c, (b < n)%nat -> (c < k)%nat -> f b c = true.
 Proof.
-  intros H Hi. rewrite forallb_forall in H. apply H. apply in_seq. lia.
+  intros H b c Hb Hc. rewrite forallb_forall in H.
+  assert (Hin : In b (seq 0 n)) by (apply in_seq; lia).
+  specialize (H b Hin). rewrite forallb_forall in H. apply H. apply in_seq. lia.
 Qed.
 
-Lemma ptr_sweep_spec mask shift : ptr_sweep mask shift = true ->
-  forall b c, b < 256 -> c < 256 -> ptr_bits mask shift b c = c + 256 * (b mod 64).
-Proof.
-  unfold ptr_sweep. generalize 256%nat at 1 2. intros n. intros H b c Hb Hc.
-Abort.
+Lemma ptr_sweep_ok :
+  forallb (fun b => forallb (ptr_ok 63 8 b) (seq 0 256)) (seq 0 256) = true.
+Proof. vm_compute. reflexivity. Qed.
 
 Lemma ptr_bits_arith b c : b < 256 -> c < 256 ->
   ptr_bits 63 8 b c = c + 256 * (b mod 64).
 Proof.
   intros Hb Hc.
-  pose proof (forallb_seq_below _ 256 (N.to_nat b) ptr_sweep_ok) as H1.
-  assert (Hb' : (N.to_nat b < 256)%nat) by lia. specialize (H1 Hb').
-  pose proof (forallb_seq_below _ 256 (N.to_nat c) H1) as H2.
-  assert (Hc' : (N.to_nat c < 256)%nat) by lia. specialize (H2 Hc').
-  cbv beta in H2. rewrite !N2Nat.id in H2. apply N.eqb_eq in H2. exact H2.
+  assert (H : ptr_ok 63 8 (N.to_nat b) (N.to_nat c) = true).
+  { apply (forallb2_seq (ptr_ok 63 8) 256 256 ptr_sweep_ok); lia. }
+  unfold ptr_ok in H. rewrite !N2Nat.id in H. apply N.eqb_eq in H. exact H.
 Qed.
 
 Lemma ptr_bits_gen b c : b < 256 -> c < 256 ->
